@@ -43,12 +43,29 @@ static cbuf_t cb_make(const void *src, size_t n, bool odd) {
 }
 static void cb_drop(cbuf_t *c) { memset(c->base, 0xA5, c->n + (size_t)(c->p - c->base)); hm_free(c->base); c->base = c->p = NULL; }
 
+/* pairs of distinct keys with identical full 32-bit MurmurHash3 values (birthday search over "user<n>" with the
+ * reference hash): they share a chain under EVERY range and are told apart only by the name comparison */
+static char COLL[64][2][16]; static int NCOLL;
+static int cmp_u64(const void *a, const void *b) { uint64_t x = *(const uint64_t *)a, y = *(const uint64_t *)b; return x < y ? -1 : x > y; }
+static void find_collisions(void) {
+    int N = 700000; uint64_t *h = hm_alloc(sizeof(uint64_t) * (size_t)N); char b[16];
+    for (int i = 0; i < N; i++) { int l = snprintf(b, sizeof b, "user%d", i); h[i] = (uint64_t)ref_murmur3_32(b, (size_t)l) << 32 | (uint32_t)i; }
+    qsort(h, (size_t)N, sizeof(uint64_t), cmp_u64);
+    for (int i = 0; i + 1 < N && NCOLL < 64; i++) if ((h[i] >> 32) == (h[i + 1] >> 32)) { snprintf(COLL[NCOLL][0], 16, "user%u", (unsigned)(h[i] & 0xffffffffu)); snprintf(COLL[NCOLL][1], 16, "user%u", (unsigned)(h[i + 1] & 0xffffffffu)); NCOLL++; i++; }
+    hm_free(h);
+    vf_max("full_hash_collision_pairs_available", NCOLL);
+}
 static void universe_make(int n, int style) {
     UK = hm_alloc(sizeof(char *) * (size_t)n); NU = 0;
+    if (style == 4) {   /* colliding pairs first, the rest ordinary keys */
+        int first = NCOLL ? (int)rng_below(&R, (uint32_t)NCOLL) : 0;
+        for (int k = 0; k < NCOLL && NU + 1 < n && k < 6; k++) { int c = (first + k) % NCOLL; UK[NU++] = vf_xdup(COLL[c][0], strlen(COLL[c][0]) + 1); UK[NU++] = vf_xdup(COLL[c][1], strlen(COLL[c][1]) + 1); }
+        style = 0;
+    }
     while (NU < n) {
         char b[48]; int len;
         switch (style) {
-        case 0: len = snprintf(b, sizeof b, "k%d", NU); break;                          /* short distinct */
+        case 0: len = snprintf(b, sizeof b, "k%d", NU + 100); break;                          /* short distinct */
         case 1: len = (int)rng_below(&R, 12); for (int i = 0; i < len; i++) b[i] = (char)(1 + rng_below(&R, 255)); b[len] = 0; break;  /* arbitrary bytes, may be empty */
         case 2: len = snprintf(b, sizeof b, "%s%d", "commonprefix-commonprefix-", NU); break;
         default: len = 1 + (int)rng_below(&R, 3); for (int i = 0; i < len; i++) b[i] = (char)('a' + rng_below(&R, 3)); b[len] = 0; break;
@@ -244,8 +261,10 @@ static void history(long caseno) {
     size_t range = RANGES[caseno % 6];
     int U = range == 1 ? 1 + (int)rng_below(&R, 40) : range == 0 ? 50 + (int)rng_below(&R, 300) : (int)(range * (1 + rng_below(&R, 8))) + 1;
     if (U > 400) U = 400;
-    int style = (int)rng_below(&R, 4);
+    int style = (int)rng_below(&R, 5);
+    if (style == 4 && U < 4) U = 4;
     universe_make(U, style);
+    if (style == 4) vf_count("histories_with_full_hash_collisions", 1);
     int nops = VF.thorough ? 4000 : 1500;
     vf_case_begin(caseno, "random history: range=%zu universe=%d keystyle=%d ops=%d", range, NU, style, nops);
     table_new(range);
@@ -304,6 +323,7 @@ int main(int argc, char **argv) {
     if (P != 5 && P != 11) { fprintf(stderr, "h_hashtbl: unsupported property %s\n", VF.prop); return 2; }
     vf_ledger_enable(true);
     long ncases = vf_arg_long("cases", 400);
+    find_collisions();
     for (long c = 0; c < 64; c++) if (vf_mine(900000 + c)) directed(900000 + c);
     for (long c = 0; c < ncases; c++) if (vf_mine(c)) history(c);
     return vf_finish() ? 1 : 0;
